@@ -502,6 +502,14 @@ func definitelyNonNil(v ssa.Value) bool {
 	case *ssa.Alloc, *ssa.MakeInterface, *ssa.MakeClosure, *ssa.MakeMap, *ssa.MakeSlice, *ssa.MakeChan, *ssa.FieldAddr, *ssa.IndexAddr, *ssa.Function, *ssa.Global:
 		_ = x
 		return true
+	case *ssa.Call:
+		// constructors of errors
+		if f := x.Call.StaticCallee(); f != nil && f.Pkg != nil {
+			switch f.Pkg.Pkg.Path() + "." + f.Name() {
+			case "errors.New", "fmt.Errorf", "github.com/pkg/errors.New", "github.com/pkg/errors.Errorf", "github.com/pingcap/errors.New", "github.com/pingcap/errors.Errorf":
+				return true
+			}
+		}
 	}
 	return false
 }
@@ -577,7 +585,7 @@ func effCond(ifi *ssa.If, env *phiEnv) (ssa.Value, bool, bool, bool) {
 		return v, neg, true, constant.BoolVal(c.Value) != neg
 	}
 	// a comparison of a followed φ with a constant: decided by the value the φ took on this path
-	if b, ok := Strip(v).(*ssa.BinOp); ok && env != nil {
+	if b, ok := Strip(v).(*ssa.BinOp); ok {
 		if _, isCmp := negOp[b.Op]; isCmp {
 			resolve := func(w ssa.Value) ssa.Value {
 				w = Strip(w)
@@ -592,7 +600,7 @@ func effCond(ifi *ssa.If, env *phiEnv) (ssa.Value, bool, bool, bool) {
 					}
 					break
 				}
-				if ph, ok := w.(*ssa.Phi); ok {
+				if ph, ok := w.(*ssa.Phi); ok && env != nil {
 					if r, ok := env.m[ph]; ok {
 						if _, isNeg := r.(*negated); !isNeg {
 							return Strip(r)
